@@ -73,3 +73,16 @@ Theorem C02_vote_won_wins : forall gs c0 c1 votes t c,
   joint_vote c0 c1 votes = VoteWon -> wins gs c0 c1 t c.
 Proof. exact vote_won_wins. Qed.
 Print Assumptions C02_vote_won_wins.
+
+(* the vote is not forgotten by an application that syncs only when it is told to: a Ready that
+   exposes a new term or a new vote, or carries entries, asks for a durable write
+   (Proofs/RoleProofs.v; the seeded change C02_mustsync_ignores_vote negates this) *)
+From RaftV Require RoleProofs.
+Theorem C02_new_vote_must_sync : forall st rn rd,
+  ready_without_accept st rn = Ok rd ->
+  (hs_term (hard_state (rn_raft rn)) <> hs_term (rn_prev_hard rn) \/
+   hs_vote (hard_state (rn_raft rn)) <> hs_vote (rn_prev_hard rn) \/
+   u_next_entries (l_unstable (r_log (rn_raft rn))) <> []) ->
+  rd_must_sync rd = true.
+Proof. exact RoleProofs.ready_must_sync. Qed.
+Print Assumptions C02_new_vote_must_sync.
